@@ -6,7 +6,7 @@ use vstd::prelude::*;
 verus! {
 
 //@@ trusted the Attach performative is reduced to the fields on_incoming_attach reads; Source / Target verification (verify_as_receiver / verify_as_sender), the conversion of the target archetype, the merge of link properties and handle_unsettled_in_attach (resumption bookkeeping) are stand-ins that may fail or succeed arbitrarily and touch nothing else
-//@@ trusted the flow state (Arc<LinkFlowState>, a lock around initial_delivery_count / delivery_count / link_credit ...) is a plain struct; `x.as_ref().delivery_count_mut(|_| v)` is routed to a setter (R4)
+//@@ trusted the flow state (Arc<LinkFlowState>, a lock around initial_delivery_count / delivery_count / link_credit ...) is a plain struct; `x.as_ref().delivery_count_mut(|old| v)` is routed to `{ let old = x.delivery_count; x.delivery_count = v; }` (R4: what the accessor does under its lock)
 
 macro_rules! opaque {
     ($($n:ident),*) => { verus!{ $(
@@ -99,8 +99,8 @@ impl ReceiverLink {
 //@@ subst `use self::source::VerifySource;` => `` rule=R6
 //@@ subst `self.source = Some(*remote_source);` => `self.source = Some(unbox(remote_source));` rule=R8
 //@@ subst `.map(|t| T::try_from(*t)) .transpose() .map_err(|_v0| ReceiverAttachError::CoordinatorIsNotImplemented)?` => `;let target = match target { Some(t) => match TargetS::try_from(unbox(t)) { Ok(t) => Some(t), Err(_e) => return Err(ReceiverAttachError::CoordinatorIsNotImplemented) }, None => None }` rule=R19 unless `\.map_err\(`
-//@@ subst `self.flow_state .as_ref() .initial_delivery_count_mut(|_v1| __E1);` => `self.flow_state.initial_delivery_count = __E1;` rule=R4
-//@@ subst `self.flow_state .as_ref() .delivery_count_mut(|_v2| __E1);` => `self.flow_state.delivery_count = __E1;` rule=R4
+//@@ subst `self.flow_state .as_ref() .initial_delivery_count_mut(|__E2| __E1);` => `{ let __E2 = self.flow_state.initial_delivery_count; self.flow_state.initial_delivery_count = __E1; }` rule=R4
+//@@ subst `self.flow_state .as_ref() .delivery_count_mut(|__E2| __E1);` => `{ let __E2 = self.flow_state.delivery_count; self.flow_state.delivery_count = __E1; }` rule=R4
 //@@ subst `self.properties_mut(|local_properties| { local_properties .get_or_insert(OrderedMap::new()) .as_inner_mut() .extend(remote_properties.into_inner()); });` => `self.merge_properties(remote_properties);` rule=R9
 //@@ spec
     ensures
